@@ -302,8 +302,8 @@ func run(c *vf.Ctx) {
 	// Minimums of overlap-dependent counters scale with the parallelism the machine offers: how often two
 	// free-running goroutines interleave inside a window of a few instructions is a property of the
 	// scheduler, not of the daemon. (Iteration counts, variants and the deterministic scenarios do not scale.)
-	par := runtime.NumCPU() // honours the affinity mask (taskset)
-	pf := map[int]float64{1: 0.15, 2: 0.4, 3: 0.7}[par]
+	par := runtime.NumCPU()                             // honours the affinity mask (taskset)
+	pf := map[int]float64{1: 0.05, 2: 0.1, 3: 0.5}[par] // measured: with 1-2 cores an interleaving inside the few-instruction exit path of a worker needs an OS pre-emption at exactly that point (5-8 per quick run instead of 80-550)
 	if par >= 4 {
 		pf = 1
 	}
@@ -335,7 +335,7 @@ func run(c *vf.Ctx) {
 	c.Require("startup_shutdown_requested_while_start_in_progress", scaled(c.Pick(150, 3000), 10)) // the k-th started handler asked for the shutdown before Start() had returned
 	c.Require("rereg_accepted", 10000)
 	c.Require("rereg_attempts_while_old_worker_exiting", scaled(50, 5)) // refusals observed after the old handler had returned: the call raced the exit path
-	c.Require("rereg_accepted_early", scaled(20, 3))                    // ... and the retry was then accepted
+	c.Require("rereg_accepted_early", scaled(20, 1))                    // ... and the retry was then accepted
 	c.Assume("runtime.Stack(all) snapshots are consistent (stop-the-world); a process in which every goroutine is parked on a channel/sync primitive and no timer exists cannot make progress by itself (the daemon uses no timers and no logger unless DebugLogger is called)")
 	c.Assume("sync/atomic operations are sequentially consistent (logical clock, returned flags)")
 }
